@@ -21,7 +21,7 @@ def MAX_INCLUDE : Nat := 10
 inductive Event where
   | sect (name : Bytes)
   | kv (key val : Bytes)
-  deriving Repr, DecidableEq, BEq
+  deriving Repr, DecidableEq
 
 inductive Err where
   | noFile      -- "could not load file"
@@ -32,7 +32,7 @@ inductive Err where
   | syntax      -- "syntax error in configuration"
   | oob         -- MODEL ONLY: an access outside the buffer (proved unreachable)
   | fuel        -- MODEL ONLY: fuel exhausted (proved unreachable)
-  deriving Repr, DecidableEq, BEq
+  deriving Repr, DecidableEq
 
 /-- result of scanning one file: handler state, and either the final buffer (success) or the
     error (the buffer is freed).  `first` is the root cause (first error logged). -/
@@ -40,7 +40,7 @@ structure Out (σ : Type) where
   st : σ
   err : Option Err          -- `none` = parse_ini_file returns true
   first : Option Err        -- the innermost error
-  buf : Bytes               -- buffer content when the function left the loop
+  buf : Bytes               -- buffer content at `free(buf); return true` ([] after a failure)
 
 def rd (buf : Bytes) (i : Nat) : Option UInt8 := buf[i]?
 
@@ -96,136 +96,158 @@ def isIncludeAt (buf : Bytes) (p : Nat) : Option Bool :=
 inductive Step (σ : Type) where
   | next (buf : Bytes) (p : Nat) (st : σ)      -- `continue`
   | done (buf : Bytes) (st : σ)                -- `break` / loop condition false
-  | fail (buf : Bytes) (st : σ) (e first : Err)
+  | fail (st : σ) (e first : Err)              -- `goto failed` (the buffer is freed)
 
 variable {σ : Type}
 
-/-- body of the loop for `*p != 0` at entry.  `incl name st` processes an include file one level
-    deeper; `h` is the user handler. -/
+/-- the `%include` branch; `p` is at the `%` -/
+def doInclude (incl : Bytes → σ → σ × Option Err) (level : Nat) (buf : Bytes) (p : Nat) (st : σ) :
+    Step σ :=
+  let n := buf.length
+  let oob : Step σ := .fail st .oob .oob
+  if level ≥ MAX_INCLUDE then .fail st .depth .depth else
+  match skipWhile isBlank buf n (p + 8) with
+  | none => oob
+  | some val =>
+  -- now read value
+  match skipWhile notNl buf n val with
+  | none => oob
+  | some pe =>
+  -- eat space at end
+  match trimLen buf val (pe - val) with
+  | none => oob
+  | some vlen =>
+  match rd buf (val + vlen) with
+  | none => oob
+  | some o1 =>
+  match wr buf (val + vlen) 0 with
+  | none => oob
+  | some b1 =>
+  match incl (cstr b1 val) st with
+  | (st', r) =>
+  match wr b1 (val + vlen) o1 with
+  | none => oob
+  | some b2 =>
+  match r with
+  | some e => .fail st' .incl e
+  | none => .next b2 pe st'
+
+/-- the `[section]` branch; `p` is at the `[` -/
+def doSection (h : σ → Event → σ × Bool) (buf : Bytes) (p : Nat) (st : σ) : Step σ :=
+  let n := buf.length
+  let oob : Step σ := .fail st .oob .oob
+  let key := p + 1
+  match skipWhile sectCh buf n key with
+  | none => oob
+  | some pe =>
+  match rd buf pe with
+  | none => oob
+  | some o1 =>
+  if o1.toNat != 93 then .fail st .syntax .syntax else
+  match wr buf pe 0 with
+  | none => oob
+  | some b1 =>
+  match h st (.sect (cstr b1 key)) with
+  | (st', false) => .fail st' .badSect .badSect
+  | (st', true) =>
+  match wr b1 pe o1 with
+  | none => oob
+  | some b2 => .next b2 (pe + 1) st'
+
+/-- the `key = value` branch; `p` is at the first byte of the key -/
+def doKeyVal (h : σ → Event → σ × Bool) (buf : Bytes) (p : Nat) (st : σ) : Step σ :=
+  let n := buf.length
+  let oob : Step σ := .fail st .oob .oob
+  -- read key val
+  let key := p
+  match skipWhile isKeyCh buf n p with
+  | none => oob
+  | some p1 =>
+  let klen := p1 - key
+  -- expect '=', skip it
+  match skipWhile isBlank buf n p1 with
+  | none => oob
+  | some p2 =>
+  match rd buf p2 with
+  | none => oob
+  | some eq =>
+  if eq.toNat != 61 then .fail st .syntax .syntax else
+  match skipWhile isBlank buf n (p2 + 1) with
+  | none => oob
+  | some val =>
+  -- now read value
+  match skipWhile notNl buf n val with
+  | none => oob
+  | some pe =>
+  -- eat space at end
+  match trimLen buf val (pe - val) with
+  | none => oob
+  | some vlen =>
+  -- skip junk
+  match skipWhile isSpace buf n pe with
+  | none => oob
+  | some pn =>
+  -- our buf is r/w, so take it easy
+  match rd buf (key + klen), rd buf (val + vlen) with
+  | some o1, some o2 =>
+    match wr buf (key + klen) 0 with
+    | none => oob
+    | some b1 =>
+    match wr b1 (val + vlen) 0 with
+    | none => oob
+    | some b2 =>
+    match h st (.kv (cstr b2 key) (cstr b2 val)) with
+    | (st', ok) =>
+    -- restore data, to keep count_lines() working
+    match wr b2 (key + klen) o1 with
+    | none => oob
+    | some b3 =>
+    match wr b3 (val + vlen) o2 with
+    | none => oob
+    | some b4 =>
+    if ok then .next b4 pn st' else .fail st' .badVal .badVal
+  | _, _ => oob
+
+/-- body of the loop.  `incl name st` processes an include file one level deeper; `h` is the
+    user handler. -/
 def stepAt (incl : Bytes → σ → σ × Option Err) (h : σ → Event → σ × Bool) (level : Nat)
     (buf : Bytes) (p : Nat) (st : σ) : Step σ :=
-  let n := buf.length
-  let oob : Step σ := .fail buf st .oob .oob
+  let oob : Step σ := .fail st .oob .oob
   -- space at the start of line - including empty lines
-  match skipWhile isSpace buf n p with
+  match skipWhile isSpace buf buf.length p with
   | none => oob
   | some p =>
   match isIncludeAt buf p with
   | none => oob
-  | some true =>
-    if level ≥ MAX_INCLUDE then .fail buf st .depth .depth else
-    match skipWhile isBlank buf n (p + 8) with
-    | none => oob
-    | some val =>
-    match skipWhile notNl buf n val with
-    | none => oob
-    | some pe =>
-    match trimLen buf val (pe - val) with
-    | none => oob
-    | some vlen =>
-    match rd buf (val + vlen) with
-    | none => oob
-    | some o1 =>
-    match wr buf (val + vlen) 0 with
-    | none => oob
-    | some b1 =>
-    let (st', r) := incl (cstr b1 val) st
-    match wr b1 (val + vlen) o1 with
-    | none => oob
-    | some b2 =>
-    match r with
-    | some e => .fail b2 st' .incl e
-    | none => .next b2 pe st'
+  | some true => doInclude incl level buf p st
   | some false =>
   match rd buf p with
   | none => oob
   | some c =>
   -- skip comment lines
   if c.toNat == 35 || c.toNat == 59 then
-    match skipWhile notNl buf n p with
+    match skipWhile notNl buf buf.length p with
     | none => oob
     | some p' => .next buf p' st
   -- got new section
-  else if c.toNat == 91 then
-    let key := p + 1
-    match skipWhile sectCh buf n key with
-    | none => oob
-    | some pe =>
-    match rd buf pe with
-    | none => oob
-    | some o1 =>
-    if o1.toNat != 93 then .fail buf st .syntax .syntax else
-    match wr buf pe 0 with
-    | none => oob
-    | some b1 =>
-    let (st', ok) := h st (.sect (cstr b1 key))
-    if !ok then .fail b1 st' .badSect .badSect else
-    match wr b1 pe o1 with
-    | none => oob
-    | some b2 => .next b2 (pe + 1) st'
+  else if c.toNat == 91 then doSection h buf p st
   -- done?
   else if c == 0 then .done buf st
-  else
-    -- read key val
-    let key := p
-    match skipWhile isKeyCh buf n p with
-    | none => oob
-    | some p1 =>
-    let klen := p1 - key
-    -- expect '=', skip it
-    match skipWhile isBlank buf n p1 with
-    | none => oob
-    | some p2 =>
-    match rd buf p2 with
-    | none => oob
-    | some eq =>
-    if eq.toNat != 61 then .fail buf st .syntax .syntax else
-    match skipWhile isBlank buf n (p2 + 1) with
-    | none => oob
-    | some val =>
-    -- now read value
-    match skipWhile notNl buf n val with
-    | none => oob
-    | some pe =>
-    match trimLen buf val (pe - val) with
-    | none => oob
-    | some vlen =>
-    -- skip junk
-    match skipWhile isSpace buf n pe with
-    | none => oob
-    | some pn =>
-    match rd buf (key + klen), rd buf (val + vlen) with
-    | some o1, some o2 =>
-      match wr buf (key + klen) 0 with
-      | none => oob
-      | some b1 =>
-      match wr b1 (val + vlen) 0 with
-      | none => oob
-      | some b2 =>
-      let (st', ok) := h st (.kv (cstr b2 key) (cstr b2 val))
-      -- restore data, to keep count_lines() working
-      match wr b2 (key + klen) o1 with
-      | none => oob
-      | some b3 =>
-      match wr b3 (val + vlen) o2 with
-      | none => oob
-      | some b4 =>
-      if !ok then .fail b4 st' .badVal .badVal else .next b4 pn st'
-    | _, _ => oob
+  else doKeyVal h buf p st
 
 /-- `while (*p) { … }` -/
 def loop (incl : Bytes → σ → σ × Option Err) (h : σ → Event → σ × Bool) (level : Nat) :
     Nat → Bytes → Nat → σ → Out σ
-  | 0, buf, _, st => ⟨st, some .fuel, some .fuel, buf⟩
+  | 0, _, _, st => ⟨st, some .fuel, some .fuel, []⟩
   | fuel + 1, buf, p, st =>
     match rd buf p with
-    | none => ⟨st, some .oob, some .oob, buf⟩
+    | none => ⟨st, some .oob, some .oob, []⟩
     | some c =>
       if c == 0 then ⟨st, none, none, buf⟩ else
       match stepAt incl h level buf p st with
       | .next b p' st' => loop incl h level fuel b p' st'
       | .done b st' => ⟨st', none, none, b⟩
-      | .fail b st' e f => ⟨st', some e, some f, b⟩
+      | .fail st' e f => ⟨st', some e, some f, []⟩
 
 /-- `load_file`: the file's bytes and the terminating NUL -/
 def loadBuf (content : Bytes) : Bytes := content ++ [0]
